@@ -52,6 +52,22 @@ def stepCa (cfg : Cfg) (ws : List String) (prev obs : Json) (clock : Nat) (repub
       let (o, re) := reissueIfNeeded m.objs force clock cfg.timing (mkIns cfg.timing m.objs post)
       ({ m with objs := o }, a.tag (if re then (if force then "republish-forced" else "republish-due") else "republish-notdue"))
     else (m, a)
+  -- harness op `age <ca> <which> <hours>`: the next-update of the named sets is rewritten in storage
+  -- (an input, like the clock): the model takes the observed value
+  let m := match ws with
+    | ["age", h', which, _] =>
+      if h' != h then m else
+      let upd (role : String) (rcn : Nat) (s : KeyObjectSet) : KeyObjectSet :=
+        if which == "all" || which == role then
+          match findSetO post rcn s.crlName with
+          | some o => { s with revision := { s.revision with nextUpdate := o.nextU } }
+          | none => s
+        else s
+      { m with objs := m.objs.map fun (rcn, c) => match c with
+          | .current c0 => (rcn, .current (upd "current" rcn c0))
+          | .staging sg c0 => (rcn, .staging (upd "staging" rcn sg) (upd "current" rcn c0))
+          | .old c0 ol => (rcn, .old (upd "current" rcn c0) (upd "old" rcn ol)) }
+    | _ => m
   let (m, a, _) := cmds.foldl (fun (m, a, idx) (_, cmd) =>
     let (m, a) := if idx == republishAt then doRepublish m a else (m, a)
     let (m, a) := projCmd cfg h postCa now cmd m a
@@ -146,10 +162,26 @@ def stepOracle (st : St) (ws : List String) (obs : Json) : St × List String :=
   let prevObjs : List (String × List (Nat × ClassO)) :=
     ((handlesOf st.prev "objects").map fun h => (h, parseCaObjects (jpath st.prev ["objects", h]))) ++ taObjs st.prev
   -- per set and per transition
-  let p1 := objs.flatMap fun (_, cls) => cls.flatMap fun (_, c) => c.sets.flatMap (setPreds now)
+  let isAge := ws.head? == some "age"
+  -- sets aged by this op, and those aged before that have not been re-issued since
+  let agedNow : List (String × Nat) := if !isAge then [] else
+    objs.flatMap fun (h, cls) => cls.flatMap fun (rcn, c) => c.sets.filterMap fun q =>
+      match (prevObjs.find? (·.1 == h)).bind fun (_, pc) => findSetO pc rcn q.crlName with
+      | some p => if q.nextU != p.nextU && q.number == p.number then some (h, q.crlName) else none
+      | none => none
+  let stillAged := st.aged.filter fun (h, crl) =>
+    objs.any fun (h', cls) => h' == h && cls.any fun (rcn, c) => c.sets.any fun q =>
+      q.crlName == crl &&
+        match (prevObjs.find? (·.1 == h)).bind fun (_, pc) => findSetO pc rcn crl with
+        | some p => q.number == p.number
+        | none => false
+  let aged := stillAged ++ agedNow
+  let isAged (h : String) (crl : Nat) : Bool := aged.contains (h, crl)
+  let p1 := objs.flatMap fun (h, cls) => cls.flatMap fun (_, c) => c.sets.flatMap fun s =>
+    setPreds now (isAged h s.crlName) s
   let p2 := objs.flatMap fun (h, cls) => cls.flatMap fun (rcn, c) => c.sets.flatMap fun q =>
     match (prevObjs.find? (·.1 == h)).bind fun (_, pc) => findSetO pc rcn q.crlName with
-    | some p => transPreds t0 now p q
+    | some p => transPreds t0 now isAge p q
     | none => if q.number ≥ 1 then [] else ["NumberPlusOne"]
   -- ghost of everything published
   let evSeen := (caCmds obs).flatMap fun (h, cmd) =>
@@ -253,8 +285,8 @@ def stepOracle (st : St) (ws : List String) (obs : Json) : St × List String :=
   let ignoredMissing := dedupS (st.ignoredMissing ++
     (p8k.filter (·.1 == "RevokeRequestEffective/mapping-to-missing-class")).map (·.2))
   let wait := wait.filter fun (h, rcn, _) => !(finished.contains (h, rcn)) && !(jisNull (jpath obs ["cas", h]))
-  let p9 := rpPreds obs objs (fun h => inSync h && !(syncPending obs h)) ignored ignoredMissing
-  ({ st with seen, revokeWait := wait, unsynced, ignoredRevokes := ignored, ignoredMissing }, dedupS (p1 ++ p2 ++ p3 ++ p4 ++ p5 ++ p6 ++ p7 ++ p8 ++ p9))
+  let p9 := rpPreds obs objs (fun h => inSync h && !(syncPending obs h)) ignored ignoredMissing isAged
+  ({ st with seen, revokeWait := wait, unsynced, ignoredRevokes := ignored, ignoredMissing, aged }, dedupS (p1 ++ p2 ++ p3 ++ p4 ++ p5 ++ p6 ++ p7 ++ p8 ++ p9))
 
 /-- Which property an oracle predicate belongs to. -/
 def propsOf (pred : String) : List String :=
